@@ -8,6 +8,7 @@ G  every document tree of SvgDoc.tla (all shape kinds, 10 transform lists, group
    (no transforms, by design) and SaxDocument.flatten_all_paths(); each returned path is compared,
    by element id, with the model's shape geometry mapped by the model's matrix.
 """
+import math
 import os
 import random
 import shutil
@@ -143,6 +144,43 @@ def check_doc(ck, case, rnd, tmp, do_sax=True):
                 'raised %r' % e, 'paths', repr(e))
 
 
+def mirror_hidden_in_the_product(ck, tmp):
+    """arcs under transform chains whose mirror-ness does not show on the diagonal of the product (an axis swap, skews around a reflection, rotate . skew):
+    whether the image of an arc runs the other way round is decided by the determinant"""
+    import numpy as np
+    T = lambda a, b, c, d, e, f: np.array([[a, c, e], [b, d, f], [0, 0, 1.0]])      # noqa
+    t60 = math.tan(math.radians(60))
+    c60, s60 = math.cos(math.radians(60)), math.sin(math.radians(60))
+    chains = [[('matrix(0 1 1 0 0 0)', T(0, 1, 1, 0, 0, 0))],
+              [('skewX(60)', T(1, 0, t60, 1, 0, 0)), ('scale(-1,1)', T(-1, 0, 0, 1, 0, 0)), ('skewY(60)', T(1, t60, 0, 1, 0, 0))],
+              [('rotate(60) skewX(-70)', T(c60, s60, -s60, c60, 0, 0).dot(T(1, 0, math.tan(math.radians(-70)), 1, 0, 0)))],
+              [('translate(3,1)', T(1, 0, 0, 1, 3, 1)), ('matrix(0 2 1 0 5 -2)', T(0, 2, 1, 0, 5, -2))],
+              [('scale(1,-1)', T(1, 0, 0, -1, 0, 0)), ('rotate(90)', T(0, 1, -1, 0, 0, 0))]]
+    ref = list(sp.parse_path(sm.PATH_D[1]))
+    for ci, chain_ in enumerate(chains):
+        M = np.eye(3)
+        for _, m_ in chain_:
+            M = M.dot(m_)
+        M6 = [M[0, 0], M[1, 0], M[0, 1], M[1, 1], M[0, 2], M[1, 2]]
+        body = '<path id="p" d="%s"/>' % sm.PATH_D[1]
+        for txt, _ in reversed(chain_):
+            body = '<g transform="%s">%s</g>' % (txt, body)
+        text = '<svg xmlns="%s" version="1.1">%s</svg>' % (sm.NS, body)
+        fn = os.path.join(tmp, 'mirror%d.svg' % ci)
+        with open(fn, 'w') as f:
+            f.write(text)
+        for who, f_ in (('Document.paths', lambda: sp.Document(fn).paths()), ('SaxDocument.flatten_all_paths', lambda: sp.SaxDocument(fn).flatten_all_paths())):
+            ck.case(fp=('mirror-hidden', ci, who), nontrivial=True)
+            try:
+                got = f_()
+                diff = sm.compare_path(list(got[0]), ref, M6, tol=1e-6) if len(got) == 1 else 'returned %d paths' % len(got)
+            except Exception as e:      # noqa
+                diff = 'raised %r' % e
+            if diff:
+                ck.disagree(key='%s/geometry/path/arc/mirror-hidden-in-the-product' % who, site='svgpathtools/path.py:transform (Arc)',
+                            what='%s of %s: %s' % (who, text, diff), case={'svg': text}, expected='the arc path mapped by %s' % M6, observed=diff, driver='flatten')
+
+
 def run(ck):
     rnd = random.Random(ck.seed)
     quick = ck.tier == 'quick'
@@ -159,7 +197,7 @@ def run(ck):
     tmp = tempfile.mkdtemp(prefix='c17_')
     try:
         allk = '{"path", "line", "polyline", "polygon", "rect", "rrect", "circle", "ellipse"}'
-        d = 'SPECIFICATION Spec\nCONSTANTS MaxNodes = %d\n ShapeKinds = %s\n TfCount = %d\nINVARIANT Dump\n'
+        d = 'SPECIFICATION Spec\nCONSTANTS MaxNodes = %d\n ShapeKinds = %s\n TfCount = %d\n RootTfs = {1}\nINVARIANT Dump\n'
         st = {'n': 0}
 
         def on_case(c, every=1):
@@ -168,15 +206,32 @@ def run(ck):
                 check_doc(ck, c, rnd, tmp)
         # exhaustive: root + 2 nodes (every kind x every transform list x both nestings)
         ck.tlc('SvgDoc', d % (3, allk, 10), workers=1, coverage=False, on_case=lambda c: on_case(c, 3 if quick else 1), timeout=3000)
+        # a transform on the root <svg> element itself (an ancestor like any other)
+        ck.tlc('SvgDoc', (d % (3, '{"line", "circle", "rrect"}', 5)).replace('RootTfs = {1}', 'RootTfs = {2, 3, 5}'), workers=1, coverage=False,
+               on_case=lambda c: on_case(c, 4 if quick else 1), timeout=3000)
         # deeper / wider trees by simulation
         # all nestings of root + 3 nodes (grandchild groups) for a reduced alphabet
         ck.tlc('SvgDoc', d % (4, '{"line", "circle"}', 3), workers=1, coverage=False, on_case=lambda c: on_case(c, 2 if quick else 1), timeout=3000)
         # chains of three and four nested groups (root + 4 / + 5 nodes), lines only: what is below a requested group at depth >= 2
-        ck.tlc('SvgDoc', d % (5, '{"line"}', 2), workers=1, coverage=False, on_case=lambda c: on_case(c, 5 if quick else 1), timeout=3000)
+        def deep_first(c):
+            # every tree with a shape under three groups, a third of those with a shape under two (plus the root: two transformed ancestors of a requested group), a sample of the rest
+            nd_ = c['nodes']
+            dep = {1: 0}
+            for k_ in range(2, len(nd_) + 1):
+                dep[k_] = dep[nd_[k_ - 1]['parent']] + 1
+            md = max([dep[k_] for k_ in dep if nd_[k_ - 1]['kind'] != 'g'], default=-1)
+            st['deep'] = st.get('deep', 0) + 1
+            if md >= 4 or (md == 3 and (not quick or st['deep'] % 3 == 0)):
+                st['n'] += 1
+                check_doc(ck, c, rnd, tmp)
+            else:
+                on_case(c, 17 if quick else 2)
+        ck.tlc('SvgDoc', d % (5, '{"line"}', 3), workers=1, coverage=False, on_case=deep_first, timeout=3000)      # translate / scale: do not commute
         ck.tlc('SvgDoc', d % (6, '{"line"}', 1), workers=1, coverage=False, on_case=lambda c: on_case(c, 5 if quick else 1), timeout=3000)
         for nn, num in ((5, 6), (7, 3)) if quick else ((5, 60), (7, 40), (9, 10)):
             ck.tlc('SvgDoc', d % (nn, allk, 10), workers=1, coverage=False, simulate=num, depth=2 * nn + 3, on_case=on_case, timeout=3000)
         ck.count('documents', st['n'])
+        mirror_hidden_in_the_product(ck, tmp)
     finally:
         shutil.rmtree(tmp, ignore_errors=True)
 
